@@ -64,6 +64,11 @@ def _pure(fn):
     return wrapped
 
 
+# caller-owned arrays handed to the library must come back unchanged (see tqv/purity.py)
+from tqv.purity import install as _install_purity  # noqa: E402
+
+_install_purity('toqito.channel_ops', 'toqito.helper')
+
 PROPERTY = "C04"
 RULE = (
     "Cases are drawn by Hypothesis: a linear map given by r in 1..5 pairs (A_k, B_k) with input/output dimensions "
